@@ -49,6 +49,7 @@ from apischema.deserialization.methods import (
     ConversionAlternative,
     ConversionMethod,
     ConversionUnionMethod,
+    ConstrainedLiteralMethod,
     ConversionWithValueErrorMethod,
     DefaultField,
     DeserializationMethod,
@@ -396,7 +397,7 @@ class DeserializationMethodVisitor(
                 (value.__class__, value): literal
                 for value, literal in zip(literal_values(values), values)
             }
-            return LiteralMethod(
+            method: DeserializationMethod = LiteralMethod(
                 value_map,
                 preformat_error(
                     settings.errors.one_of, [value for _, value in value_map]
@@ -404,6 +405,10 @@ class DeserializationMethodVisitor(
                 self.coercer,
                 tuple({cls for cls, _ in value_map}),
             )
+            literal_constraints = dict(constraints_validators(constraints))
+            if literal_constraints:
+                method = ConstrainedLiteralMethod(method, literal_constraints)
+            return method
 
         return self._factory(factory)
 
